@@ -3,3 +3,4 @@ C07 — the executable models: SingleFlight (`SF`), LockedCalls (`LC`), Resource
 -/
 import GoZero.C07.SF
 import GoZero.C07.LC
+import GoZero.C07.RM
